@@ -143,7 +143,7 @@ def run_check(prop, tier, seed, workers=None, runs_override=None, quiet=False):
     eng = load_engine(prop)
     desc = eng.describe(prop)
     total_runs = runs_override or eng.tiers(prop)[tier]
-    stages = 1 if tier == "quick" else 10
+    stages = 4 if tier == "quick" else 10  # exploration stops at the first stage that finds an unlisted violation
     workers = workers or int(os.environ.get("VERIF_WORKERS", "0")) or os.cpu_count() or 4
     findings = Findings()
     print("VERIF_SEED=%d property=%s tier=%s runs=%d workers=%d repo=%s" % (seed, prop, tier, total_runs, workers, kernel.REPO))
@@ -285,8 +285,9 @@ def run_check(prop, tier, seed, workers=None, runs_override=None, quiet=False):
     wall = time.time() - t0
     unlisted = [f for f in failing if f[5] is None]
     ev = _evidence(prop, tier, seed, eng, desc, tot, shapes, states, orders, samples, failing, unlisted, reported, leg_results, wall, workers, len(digests), findings)
-    os.makedirs(os.path.join(kernel.VERIF, "evidence"), exist_ok=True)
-    with open(os.path.join(kernel.VERIF, "evidence", prop + ".json"), "w") as f:
+    evdir = os.environ.get("VERIF_EVIDENCE_DIR") or os.path.join(kernel.VERIF, "evidence")
+    os.makedirs(evdir, exist_ok=True)
+    with open(os.path.join(evdir, prop + ".json"), "w") as f:
         json.dump(ev, f, indent=1, sort_keys=True)
         f.write("\n")
 
@@ -325,7 +326,7 @@ def _kill_children():
 
 
 def _write_replay(prop, seed, idx, rs, clause, original, r):
-    d = os.path.join(kernel.VERIF, "replays", prop)
+    d = os.path.join(os.environ.get("VERIF_REPLAY_DIR") or os.path.join(kernel.VERIF, "replays"), prop)
     os.makedirs(d, exist_ok=True)
     sig8 = hashlib.sha256(feature_sig(r["failure"]).encode("utf-8")).hexdigest()[:8]
     name = "%d-%s-%s-%s.json" % (seed, ("run%d" % idx) if idx >= 0 else "leg", clause.replace(".", "_"), sig8)
@@ -344,7 +345,7 @@ def _write_replay(prop, seed, idx, rs, clause, original, r):
         "program": r["program"],
     }
     with open(path, "w") as f:
-        json.dump(doc, f, indent=1, sort_keys=True)
+        json.dump(doc, f, indent=1)  # key order of the program is kept as generated
         f.write("\n")
     return path
 
